@@ -432,11 +432,17 @@ fn decoder_scenario(pattern: &str, n: usize, api: &str) -> String {
     };
     let mut dec = YamlDecoder::read(std::io::Cursor::new(bytes));
     dec.encoding_trap(trap);
-    let out = match dec.decode() {
+    let r = dec.decode();
+    match r {
         Ok(d) => format!("OK {} documents", d.len()),
+        // ignore / replace / a callback that continues: decoding "continues as configured", so a
+        // DECODE error is a wrong result whatever the number of malformed sequences (a scan error
+        // of the decoded text is fine)
+        Err(e) if api != "decode:strict" && format!("{e:?}").starts_with("Decode(") => {
+            format!("WRONG {api} must continue, decode() gave {}", e.to_string().chars().take(120).collect::<String>())
+        }
         Err(e) => format!("ERR {}", e.to_string().chars().take(80).collect::<String>()),
-    };
-    out
+    }
 }
 
 fn scenario(shape: &str, depth: usize, api: &str) -> String {
@@ -704,7 +710,8 @@ pub enum Obs {
     Ok(String),
     Err(String),
     Crash(String),
-    Panic,
+    /// the scenario unwound (empty message) or judged its own result wrong (`WRONG ...`)
+    Panic(String),
     Hang,
     Harness(String),
 }
@@ -760,7 +767,8 @@ pub fn observe(s: &Scn) -> Obs {
     match status.code() {
         Some(0) if line.starts_with("OK") => Obs::Ok(line),
         Some(0) if line.starts_with("ERR") => Obs::Err(line),
-        Some(3) => Obs::Panic,
+        Some(3) => Obs::Panic(String::new()),
+        Some(0) if line.starts_with("WRONG") => Obs::Panic(line),
         Some(c) => Obs::Harness(format!("child exit code {c}: {line}")),
         None => Obs::Crash("no exit code".into()),
     }
@@ -1007,7 +1015,7 @@ pub fn run(cfg: &Config) -> i32 {
             Obs::Ok(l) => ("ok", l.clone()),
             Obs::Err(l) => ("error-value", l.clone()),
             Obs::Crash(l) => ("CRASH", l.clone()),
-            Obs::Panic => ("PANIC", "scenario panicked".into()),
+            Obs::Panic(m) => ("PANIC", if m.is_empty() { "scenario panicked".to_string() } else { m.clone() }),
             Obs::Hang => ("HANG", "no exit within the per-scenario wall-clock limit (30 s by default)".into()),
             Obs::Harness(l) => ("harness", l.clone()),
         };
@@ -1029,11 +1037,12 @@ pub fn run(cfg: &Config) -> i32 {
                 eprintln!("harness error: scenario {s:?}: {l}");
                 exit = 2;
             }
-            Obs::Crash(_) | Obs::Panic | Obs::Hang => {
+            Obs::Crash(_) | Obs::Panic(_) | Obs::Hang => {
                 let key = key_of(s);
                 let class = match o {
                     Obs::Crash(_) => "CRASH(signal)",
-                    Obs::Panic => "PANIC",
+                    Obs::Panic(ref m) if m.starts_with("WRONG") => "WRONG-RESULT(continuing-trap)",
+                    Obs::Panic(_) => "PANIC",
                     _ => "HANG(watchdog)",
                 };
                 let listed = known.iter().find(|kf| kf.key == key && s.depth >= kf.min_depth && matches!(o, Obs::Crash(_)));
@@ -1066,7 +1075,7 @@ pub fn run(cfg: &Config) -> i32 {
             let mid = lo + (hi - lo) / 2;
             steps += 1;
             let o = observe(&Scn { shape: s.shape.clone(), depth: mid, api: s.api.clone() });
-            if matches!(o, Obs::Crash(_) | Obs::Panic | Obs::Hang) {
+            if matches!(o, Obs::Crash(_) | Obs::Panic(_) | Obs::Hang) {
                 hi = mid;
             } else {
                 lo = mid + 1;
@@ -1239,7 +1248,7 @@ fn aux_grid(cfg: &Config, prop: &str, label: &str, dims: &str, scns: Vec<Scn>) -
             Obs::Ok(l) => ("ok", l.clone()),
             Obs::Err(l) => ("error-value", l.clone()),
             Obs::Crash(l) => ("CRASH", l.clone()),
-            Obs::Panic => ("PANIC", "scenario panicked".into()),
+            Obs::Panic(m) => ("PANIC", if m.is_empty() { "scenario panicked".to_string() } else { m.clone() }),
             Obs::Hang => ("HANG", "no exit within the per-scenario wall-clock limit".into()),
             Obs::Harness(l) => ("harness", l.clone()),
         };
@@ -1253,7 +1262,8 @@ fn aux_grid(cfg: &Config, prop: &str, label: &str, dims: &str, scns: Vec<Scn>) -
             _ => {
                 let class = match o {
                     Obs::Crash(_) => "CRASH(signal)",
-                    Obs::Panic => "PANIC",
+                    Obs::Panic(ref m) if m.starts_with("WRONG") => "WRONG-RESULT(continuing-trap)",
+                    Obs::Panic(_) => "PANIC",
                     _ => "HANG(watchdog)",
                 };
                 bad.push((s.clone(), class.to_string(), format!("{class}: {} x {} through {} ({text})", s.shape, s.depth, s.api)));
@@ -1273,7 +1283,7 @@ fn aux_grid(cfg: &Config, prop: &str, label: &str, dims: &str, scns: Vec<Scn>) -
         while lo < hi && steps < 24 && class != "HANG(watchdog)" {
             let mid = lo + (hi - lo) / 2;
             steps += 1;
-            if matches!(observe(&Scn { shape: s.shape.clone(), depth: mid, api: s.api.clone() }), Obs::Crash(_) | Obs::Panic) {
+            if matches!(observe(&Scn { shape: s.shape.clone(), depth: mid, api: s.api.clone() }), Obs::Crash(_) | Obs::Panic(_)) {
                 hi = mid;
             } else {
                 lo = mid + 1;
@@ -1372,7 +1382,8 @@ pub fn replay(case: &Case, path: &str) -> i32 {
         o => {
             let class = match o {
                 Obs::Crash(_) => "CRASH(signal)",
-                Obs::Panic => "PANIC",
+                Obs::Panic(ref m) if m.starts_with("WRONG") => "WRONG-RESULT(continuing-trap)",
+                    Obs::Panic(_) => "PANIC",
                 _ => "HANG(watchdog)",
             };
             println!("violation class={class} detail=shape={} depth={} api={} {o:?}", s.shape, s.depth, s.api);
